@@ -4,4 +4,13 @@ go 1.26.4
 
 require github.com/specterops/dawgs v0.0.0
 
+require (
+	github.com/RoaringBitmap/roaring/v2 v2.19.0 // indirect
+	github.com/axiomhq/hyperloglog v0.2.6 // indirect
+	github.com/bits-and-blooms/bitset v1.24.5 // indirect
+	github.com/dgryski/go-metro v0.0.0-20250106013310-edb8663e5e33 // indirect
+	github.com/kamstrup/intmap v0.5.2 // indirect
+	github.com/mschoch/smat v0.2.0 // indirect
+)
+
 replace github.com/specterops/dawgs => /repo
